@@ -457,16 +457,18 @@ fn run_child_file(bin: &Path, decoder: &str, batch: &Path, n_inputs: usize, from
         }
     };
     let text = std::fs::read_to_string(&out).unwrap_or_default();
+    let progf = scratch.path().join(format!("{tag}.out.prog"));
+    let prog_word = std::fs::read(&progf).ok().and_then(|b| b.get(..8).map(|x| u64::from_le_bytes(x.try_into().unwrap_or([0; 8])))).unwrap_or(0);
+    let _ = std::fs::remove_file(&progf);
     let stderr = std::fs::read_to_string(&errf).unwrap_or_default();
     run.stderr_tail = stderr.chars().rev().take(1500).collect::<String>().chars().rev().collect();
-    let mut in_flight: Option<usize> = None;
+    let in_flight: Option<usize> = if prog_word > 0 { Some(prog_word as usize - 1) } else { None };
     let mut ended = false;
     let mut trip: Option<u64> = None;
     let mut kernel_fail = None;
     for line in text.lines() {
         let mut it = line.split(' ');
         match it.next() {
-            Some("S") => in_flight = it.next().and_then(|s| s.parse().ok()),
             Some("D") => {
                 let i: usize = it.next().and_then(|s| s.parse().ok()).unwrap_or(usize::MAX);
                 let ok = it.next() == Some("ok");
@@ -476,7 +478,6 @@ fn run_child_file(bin: &Path, decoder: &str, batch: &Path, n_inputs: usize, from
                 if i < run.done.len() {
                     run.done[i] = Some(Done { ok, label, peak, micros });
                 }
-                in_flight = None;
             }
             Some("TRIP") => trip = it.next().and_then(|s| s.parse().ok()),
             Some("END") => ended = true,
@@ -620,10 +621,16 @@ fn process_decoder(codec: &Codec, lane: &Lane<'_>, inputs: &[Input], scratch: &S
             continue;
         }
         let mut from = 0usize;
+        let mut crashed_rel: Vec<usize> = Vec::new();
+        let mut counted_skips: std::collections::BTreeSet<usize> = std::collections::BTreeSet::new();
         while from < idx.len() {
             // once a crash signature has 6 witnesses, further inputs of that same input class are not run
-            let skip_rel: Vec<usize> = (from..idx.len()).filter(|k| saturated.contains(classes[idx[*k]])).collect();
-            st.add("inputs_skipped_crash_class_already_witnessed_6x", skip_rel.len() as u64);
+            let mut skip_rel: Vec<usize> = (from..idx.len()).filter(|k| saturated.contains(classes[idx[*k]])).collect();
+            st.add("inputs_skipped_crash_class_already_witnessed_6x", skip_rel.iter().filter(|k| counted_skips.insert(**k)).count() as u64);
+            skip_rel.extend(crashed_rel.iter().copied().filter(|k| *k >= from));
+            if (from..idx.len()).all(|k| skip_rel.contains(&k)) {
+                break;
+            }
             let t_child = Instant::now();
             let run = run_child_file(lane.bin, codec.name, &batch, idx.len(), from, &skip_rel, scratch, tag, Duration::from_secs(180));
             st.add("children_spawned", 1);
@@ -675,11 +682,16 @@ fn process_decoder(codec: &Codec, lane: &Lane<'_>, inputs: &[Input], scratch: &S
                 }
             }
             let Some(failure) = run.failure else { break };
+            // results are flushed in order; whatever ran after the last flushed result is re-run
+            let next_from = run.done.iter().rposition(Option::is_some).map_or(from, |k| (k + 1).max(from));
+            if let Some(k) = run.crashed_at {
+                crashed_rel.push(k);
+            }
             match (&failure, run.crashed_at) {
                 (Failure::Harness(why), at) => {
                     rep.inconclusive(&format!("{} [{}]: child harness error: {}", codec.name, lane.name, why.chars().take(160).collect::<String>()));
                     match at {
-                        Some(k) => from = k + 1,
+                        Some(_) => from = next_from,
                         None => break,
                     }
                 }
@@ -687,7 +699,7 @@ fn process_decoder(codec: &Codec, lane: &Lane<'_>, inputs: &[Input], scratch: &S
                     rep.inconclusive(&format!("{} [{}]: wall-clock watchdog (180 s per child) fired - no verdict for the input in flight", codec.name, lane.name));
                     st.add("watchdog_kills", 1);
                     match at {
-                        Some(k) => from = k + 1,
+                        Some(_) => from = next_from,
                         None => break,
                     }
                 }
@@ -761,7 +773,7 @@ fn process_decoder(codec: &Codec, lane: &Lane<'_>, inputs: &[Input], scratch: &S
                     } else {
                         rep.inconclusive(&format!("{} [{}]: a child died ({fkey}) but neither the single input nor the batch prefix reproduces it", codec.name, lane.name));
                     }
-                    from = k + 1;
+                    from = next_from;
                 }
             }
         }
@@ -890,8 +902,13 @@ pub fn run(args: &Args, all: Vec<Codec>) -> i32 {
     let mut order: Vec<(usize, usize)> = Vec::new();
     for pass in 0..2 {
         let mut o: Vec<usize> = (0..codecs.len()).collect();
-        // heaviest first within a pass (kernel-backed entry points, then by corpus bytes)
-        o.sort_by_key(|i| std::cmp::Reverse((codecs[*i].needs_kernel, corpora[*i].iter().map(|x| x.bytes.len()).sum::<usize>())));
+        // pass 0: every decoder gets its turn early (cheap ones first); pass 1: heaviest first
+        let weight = |i: &usize| (codecs[*i].needs_kernel || is_cborish(&codecs[*i]), corpora[*i].iter().map(|x| x.bytes.len()).sum::<usize>());
+        if pass == 0 {
+            o.sort_by_key(weight);
+        } else {
+            o.sort_by_key(|i| std::cmp::Reverse(weight(i)));
+        }
         order.extend(o.into_iter().map(|i| (pass, i)));
     }
     let complete = std::sync::atomic::AtomicBool::new(true);
